@@ -140,11 +140,51 @@ def run(facts, rep, ctx):
         else:
             rep.violation(R3, b.name, "threshold", "references are emitted for lengths below 3 (threshold %s): the 2-byte form's high nibble would collide with the form indicators 0/1" % sorted(thr), where)
     sub_guards(facts, rep, R4, b)
+    no_failure_on_matches(rep, R5, enc, L, W, where)
     R6 = rep.rule("R09.6", "back-references reach only into data already produced: search contract shared with C10-R10.3", floor=5)
     import c10
     sb = facts.body(enc.search["callee"])
     if sb is not None:
         c10.search_contract(facts, rep, R6, sb)
+
+
+def no_failure_on_matches(rep, R5, enc, L, W, where):
+    """compress succeeds for every input below the size limit: no error return may depend on what the match search
+    found.  A path that returns Err under a comparison on the match length / displacement is checked for
+    satisfiability within the caps (length 3..L, displacement 1..W)."""
+    from c04 import is_err_term
+    bad = None
+    for p in enc.paths:
+        if p.end != "ret" or is_err_term(p.ret) is not True:
+            continue
+        sat = True
+        dep = False
+        for (bb, term, vals, neg, dty) in p.conds:
+            ct = cond_truth((term, vals, neg, dty))
+            if not ct or ct[0][0] != "bin" or ct[0][1] not in ("Lt", "Le", "Gt", "Ge", "Eq", "Ne") or ct[0][3][0] != "const":
+                continue
+            what = enc.classify(ct[0][2])
+            if what not in ("len", "disp"):
+                continue
+            dep = True
+            lo, hi = (3, L or 0x10110) if what == "len" else (1, W or 0x1000)
+            k = ct[0][3][1]
+            op = ct[0][1]
+            if not ct[1]:
+                op = {"Lt": "Ge", "Le": "Gt", "Gt": "Le", "Ge": "Lt", "Eq": "Ne", "Ne": "Eq"}[op]
+            ok = {"Lt": lo < k, "Le": lo <= k, "Gt": hi > k, "Ge": hi >= k, "Eq": lo <= k <= hi, "Ne": lo != k or hi != k}[op]
+            if op == "Lt" and what == "len":
+                # the literal branch (length below the threshold) is not a failure of a found match
+                pass
+            if not ok:
+                sat = False
+        if dep and sat:
+            conds = "; ".join(fmt(c[1])[:50] for c in p.conds[-3:])
+            bad = "compress returns an error on a path selected by the match search's result [%s]: inputs whose best match has such a length / displacement cannot be compressed" % conds
+    if bad:
+        rep.violation(R5, enc.body.name, "fails-on-match", bad, where)
+    else:
+        rep.ok(R5, {"fn": enc.body.name, "error_paths": "none depends on the match found"})
 
 
 def check_header_wrapped(rep, R1, enc, where):
